@@ -278,7 +278,11 @@ pub fn cache_async(attr: TokenStream, item: TokenStream) -> TokenStream {
 
     // Detect Result type and extract inner type if needed
     let (is_result, _cache_value_type) = {
-        let s = quote!(#ret_type).to_string().replace(' ', "");
+        // `Result::<T, E>` (turbofish in type position) is the same type as `Result<T, E>`
+        let s = quote!(#ret_type)
+            .to_string()
+            .replace(' ', "")
+            .replace("::<", "<");
         if s.starts_with("Result<")
             || s.starts_with("std::result::Result<")
             || s.starts_with("::std::result::Result<")
